@@ -41,10 +41,10 @@ const (
 )
 
 type sval struct {
-	k   int
-	i   int64
-	s   string
-	b   bool
+	k int
+	i int64
+	s string
+	b bool
 }
 
 func isLayerTypeSlice(t types.Type) bool {
